@@ -773,6 +773,34 @@ class ProgGen(object):
             self.funs.append(f)
             self.items.append(("f", f))
 
+    def param_drivers(self):
+        """(emphasis) a small function that uses its own parameter as a working variable, called with a local variable
+        of the caller that the caller reads again afterwards."""
+        r = self.r
+        for k in range(2):
+            p_, i_ = self.fresh("p"), self.fresh("i")
+            callee = {"name": self.fresh("f"), "ps": [p_], "pts": [SI], "rt": SI, "pure": True,
+                      "body": {"e": "seq", "t": SI, "es": [
+                          {"e": "for", "x": i_, "lo": lit(SI, 1), "hi": lit(SI, r.randint(1, 4)),
+                           "body": {"e": "seq", "t": UNIT, "es": [{"e": "asg", "x": p_, "v": prim("si.quo", var(p_), lit(SI, 2))}]}},
+                          prim("si.add", var(p_), lit(SI, r.randint(0, 9)))]}}
+            callee["oname"] = callee["name"]
+            self.funs.append(callee)
+            self.items.append(("f", callee))
+            x_, v_, w_ = self.fresh("p"), self.fresh("v"), self.fresh("v")
+            caller = {"name": self.fresh("f"), "ps": [x_], "pts": [SI], "rt": SI, "pure": False,
+                      "body": {"e": "let", "x": v_, "t": SI, "v": prim("si.add", var(x_), lit(SI, r.randint(1, 50))),
+                               "body": {"e": "let", "x": w_, "t": SI, "v": {"e": "call", "fi": len(self.funs), "args": [var(v_)]},
+                                        "body": {"e": "seq", "t": SI, "es": [
+                                            {"e": "print", "args": [var(v_), {"e": "str", "s": " "}, var(w_), {"e": "str", "s": " "}, var(x_),
+                                                                    {"e": "str", "s": "\n"}]},
+                                            prim("si.add", var(v_), var(w_))]}}}}
+            caller["oname"] = caller["name"]
+            self.funs.append(caller)
+            self.items.append(("f", caller))
+            self.items.append(("t", {"d": "stmt", "x": {"e": "print", "args": [
+                {"e": "call", "fi": len(self.funs), "args": [lit(SI, r.randint(20, 2000))]}, {"e": "str", "s": "\n"}]}}))
+
     def try_drivers(self):
         """(emphasis on exceptions) nested try expressions around the throwers: an inner try that handles some
         exceptions and re-raises the others through its finally part, an outer try that handles all of them."""
@@ -846,6 +874,8 @@ class ProgGen(object):
                 self.items.append(("t", {"d": "stmt", "x": s}))
         if "try" in self.emph and self.exns:
             self.try_drivers()
+        if "store" in self.emph and "fun" in self.feat:
+            self.param_drivers()
         # make sure something is printed
         pr = [x for x, (t, a) in self.gscope.vars.items() if t in (SI, BI, STR)]
         args = []
